@@ -90,6 +90,9 @@ func OrderedMap.Delete
   ensures !has(o.dictionary.m, key)
   ensures r0 ==> o.n == old(o.n) - 1 && (forall i Int :: 0 <= i && i < o.n ==> sel(o.seq, i) == (i < sel(old(o.idx), key) ? sel(old(o.seq), i) : sel(old(o.seq), i + 1)))
   ensures !r0 ==> o.n == old(o.n) && o.seq == old(o.seq)
+  -- the removed element keeps its own links, so that an iteration standing on it (ForEach releases the lock
+  -- while the consumer runs) still continues with its live successors / predecessors
+  ensures r0 ==> old(o.dictionary.m[key]).next == old(o.dictionary.m[key].next) && old(o.dictionary.m[key]).prev == old(o.dictionary.m[key].prev)
   ensures forall k K :: k != key ==> (has(o.dictionary.m, k) <==> old(has(o.dictionary.m, k))) && (has(o.dictionary.m, k) ==> o.dictionary.m[k] == old(o.dictionary.m[k]))
   ensures unlocked(o.mutex)
 
